@@ -73,9 +73,9 @@ def n4_macros(src, log, panic_helper=None):
                 log.append("N4 format!(..) -> vx_format() [opaque String: message text is not part of any contract]")
                 i = c + 1
                 continue
-            if name == "panic" and panic_helper:
+            if name in ("panic", "todo", "unimplemented") and panic_helper:
                 edits.append((toks[start].start, toks[c].end, f"{panic_helper}()"))
-                log.append(f"N4 panic!(..) -> {panic_helper}() [obligation: unreachable]")
+                log.append(f"N4 {name}!(..) -> {panic_helper}() [{'does not return' if panic_helper == 'vx_diverge' else 'obligation: unreachable'}]")
                 i = c + 1
                 continue
             if path in DROP_STMT_MACROS:
